@@ -316,6 +316,31 @@ class FullCheck(BaseCheck):
         s = rng.choice(w.servers)
         w.ss.join(s.sim.host, s.sim.port)
         classes.add('join')
+    if scripted and balancer == 'aperture' and len(w.ss.truth) >= 2 and idx % 3 == 1:
+      # a member the aperture holds idle leaves the server set; later a burst of calls issued in one
+      # instant all run into their timeout (the load average jumps at the first completion, which may
+      # widen the aperture from inside that completion)
+      try:
+        from scales.loadbalancer.aperture import ApertureBalancerSink as _AP
+        lb_i, hops_i = w.dispatcher.next_sink, 0
+        while lb_i is not None and not isinstance(lb_i, _AP) and hops_i < 8:
+          lb_i, hops_i = getattr(lb_i, 'next_sink', None), hops_i + 1
+      except ImportError:
+        lb_i = None
+      idle_i = sorted((e_.host, e_.port) for e_ in getattr(lb_i, '_idle_endpoints', ())) if lb_i is not None else []
+      idle_i = [e_ for e_ in idle_i if e_ in w.ss.truth]
+      if idle_i:
+        classes.add('idle-member-leaves-then-burst')
+        for s_ in w.servers:
+          s_.sim.mode = 'up'
+        w.ss.leave(*rng.choice(idle_i))
+        env.advance(1.0)
+        Tb = rng.choice([0.5, 2.0])
+        for _k in range(rng.choice([20, 40])):
+          cid = len(w.calls)
+          forced[cid] = Tb * 4
+          w.call('echo', ('c%d-%d' % (cid, rng.getrandbits(20)),), timeout=Tb)
+        env.advance(Tb * 5 + 1.0)
     if scripted and pool is not None and w.ss.truth and bias.get('dead_waiter_drain') and \
         rng.random() < bias['dead_waiter_drain']:
       # the last member's pool is saturated by slow calls, further calls expire while they wait in its
